@@ -356,24 +356,17 @@ def _r3(repo, L, m, ba):
     if mf is None:
         raise AnalysisError("anchor OverhangResolver.make_fixes vanished")
     ok, why = True, ""
-    n = 0
-    for c in repo.calls_in(mf):
-        if isinstance(c.func, ast.Attribute) and c.func.attr == "apply":
-            n += 1
-            who = norm(c.func.value)
-            stmt = c
-            while not isinstance(stmt, ast.stmt):
-                stmt = stmt._parent
-            blk = None
-            par = stmt._parent
-            for fld in ("body", "orelse"):
-                b = getattr(par, fld, None)
-                if isinstance(b, list) and stmt in b:
-                    blk = b
-            after = blk[blk.index(stmt) + 1:] if blk else []
-            rec = [s for s in after if isinstance(s, ast.Expr) and isinstance(s.value, ast.Call) and isinstance(s.value.func, ast.Attribute) and s.value.func.attr == "append" and s.value.args and norm(s.value.args[0]) == who]
-            if not rec:
-                ok, why = False, f"premise {who} is applied but not returned: the caller keeps the result in the contig's owner list and later cuts a row that is no longer there (or counts an owner that is gone)"
+    n = len([c for c in repo.calls_in(mf) if isinstance(c.func, ast.Attribute) and c.func.attr == "apply" and not c.args])
+    # path rule: on every path through the function (one iteration of its loops) every premise that is applied is also
+    # appended to a list -- before or after the apply(), the two are independent statements
+    for p in PathEnum((0, 1), exc_edges=False).function_paths(mf.node):
+        if p.status == "raise":
+            continue
+        applied = [norm(c.func.value) for _, c in path_calls(p, lambda c: isinstance(c.func, ast.Attribute) and c.func.attr == "apply" and not c.args)]
+        recorded = [norm(c.args[0]) for _, c in path_calls(p, lambda c: isinstance(c.func, ast.Attribute) and c.func.attr == "append" and len(c.args) == 1)]
+        for who in applied:
+            if applied.count(who) > recorded.count(who):
+                ok, why = False, f"premise {who} is applied but not returned on a path ({p.describe()[:80]}): the caller keeps the result in the contig's owner list and later cuts a row that is no longer there (or counts an owner that is gone)"
     L.check(ok, "R3", mf.short, "every applied premise is appended to the returned list", why, mf.loc())
     L.floor("R3", "premise apply sites in make_fixes", n, 2)
     # at most one premise applied per contig per round
